@@ -29,3 +29,15 @@ VM_COMPILED_LIGHT = dict(X86, main="src/vm_compiled_light.cpp", keep=["CompiledL
 VM_COMPILED = dict(X86, main="src/vm_compiled.cpp", keep=["CompiledVm::ctor", "CompiledVm::run", "CompiledVm::execute", "CompiledVm::setDataset"],
                    flatten={"root": "randomx_vm", "concrete": "CompiledVm", "chain": ["randomx_vm", "VmBase", "CompiledVm"]},
                    pre_rewrites=EXEC_REWRITE, must_fire={"object method call": 4, "recipe rewrite: call of generated code": 1})
+
+RX_CREATE_VM = {"main": "src/randomx.cpp", "keep": ["randomx_create_vm"],
+                "must_fire": {"new of template-instantiation alias -> rxv_new_<Class>(template args, ctor args)": 24,
+                              "alias of template instantiation recorded": 24}}
+CREATE_VM_OB = {
+    "name": "create_vm_dispatch",
+    "files": [{"cxx": RX_CREATE_VM, "out": "rx.c", "header": True}, "@suites/common/harness_create_vm.c"],
+    "incdirs": ["@suites/common"], "entry": "h_create_vm", "defines": ['RXV_CONTRACTS_H="decls_create_vm.h"'],
+    "expect_classes": ["assertion"], "expect_min": 8,
+}
+
+DATASET_COMPILE = dict(X86, main="src/dataset.cpp", keep=["initCacheCompile"], must_fire={"object method call": 4})
